@@ -4,17 +4,17 @@
 set -u
 NAME=$1; shift
 E=${EVALDIR:-/work/eval}
-P=/verif/seeded/$NAME/patch.diff
+P=${SEEDDIR:-/verif/seeded}/$NAME/patch.diff
 R=$E/repo
 V=$E/verif
-mkdir -p /work/seeded/logs
+mkdir -p ${LOGDIR:-/work/seeded/logs}
 cd $R && git checkout -q -- . && git apply $P || { echo "$NAME apply-failed"; exit 1; }
 cd $V
 out=""
 for c in "$@"; do
-  VERIF_REPO=$R ./check $c > /work/seeded/logs/$NAME.$c.log 2>&1
+  VERIF_REPO=$R ./check $c > ${LOGDIR:-/work/seeded/logs}/$NAME.$c.log 2>&1
   rc=$?
-  v=$(grep "^VIOLATION" /work/seeded/logs/$NAME.$c.log | head -1 | sed 's/VIOLATION property=[A-Z0-9]* //')
+  v=$(grep "^VIOLATION" ${LOGDIR:-/work/seeded/logs}/$NAME.$c.log | head -1 | sed 's/VIOLATION property=[A-Z0-9]* //')
   w=""
   rp=$(echo "$v" | sed -n 's/^replay=\([^ ]*\).*/\1/p')
   [ -n "$rp" ] && [ -f "$V/$rp" ] && w=$(python3 -c "
